@@ -229,7 +229,11 @@ runs `_first_iter` once; `__del__` hands an unfinished iterator to the captured 
 structure HookCfg where
   firstiter : Bool
   finalizer : Bool
+  raises : Bool := false      -- the installed `firstiter` raises when called
 deriving Repr, DecidableEq
+
+/-- what a raising `firstiter` hook raises -/
+def hookExc : Exc := .other 8
 
 inductive HookEv where
   | firstiter
@@ -266,6 +270,31 @@ def goiHookCall {ub : UB} (h : HookCfg) (st : HookSt) (g : Goi ub) : HookSt × L
 /-- GeneratorObjectIterator.__del__ -/
 def goiHookGC {ub : UB} (st : HookSt) (g : Goi ub) : List HookEv :=
   if st.fin && !SCoro.isDone g.coro then [.finalizer] else []
+
+/-- does this call's `firstiter` invocation raise? -/
+def hookRaised (h : HookCfg) (evs : List HookEv) : Bool := h.raises && evs.contains .firstiter
+
+/-- a consumer call of a native generator with the hooks in force: `async_gen_init_hooks` runs when the
+    method is *called*; if `firstiter` raises the call fails there, the hooks stay initialised (the finalizer
+    was captured first) and the generator is untouched -/
+def nativeCallH (ub : UB) (h : HookCfg) (hs : HookSt) (op : COp) (a : AG ub.σ) :
+    (AG ub.σ × HookSt) × CallOut × List HookEv :=
+  let hk := nativeHookCall h hs a
+  if hookRaised h hk.2 then ((a, hk.1), .raised hookExc, hk.2)
+  else
+    let x := nativeStart ub op a
+    ((x.1, hk.1), x.2, hk.2)
+
+/-- the same for the GeneratorObjectIterator: `_first_iter()` runs before `ag_running = True` and outside
+    the try block, with `hooks_inited` set and the finalizer captured before `firstiter` is called
+    (fixes/C06-firstiter-raises.patch) -/
+def goiCallH (ub : UB) (h : HookCfg) (hs : HookSt) (op : COp) (g : Goi ub) :
+    (Goi ub × HookSt) × CallOut × List HookEv :=
+  let hk := goiHookCall h hs g
+  if hookRaised h hk.2 then ((g, hk.1), .raised hookExc, hk.2)
+  else
+    let x := goiStart ub op g
+    ((x.1, hk.1), x.2, hk.2)
 
 /-- `__del__` BEFORE fixes/C06-asyncgen-hooks.patch: every iterator with a captured finalizer, finished
     or not (kept to document the finding `goi-vs-native:hooks`) -/
